@@ -18,7 +18,7 @@ DEFAULT_CFG = {
     'retry': 30, 'hold': 180, 'idle_hold': 30, 'call_later': 15, 'keep_alive_time': 60,
     'four_bytes_as': True, 'route_refresh': True, 'cisco_route_refresh': True,
     'enhanced_route_refresh': True, 'graceful_restart': True, 'cisco_multi_session': True,
-    'add_path': None, 'afi_safi': ['ipv4'], 'rib': False,
+    'add_path': None, 'afi_safi': ['ipv4'], 'rib': False, 'md5': None, 'setsockopt_fails': False,
     'peer_id': 0x0A000002,
     'username': 'admin', 'password': 'admin',
 }
@@ -171,6 +171,8 @@ class AgentWorld(object):
         ov('remote_addr', c['remote_addr'], group='bgp')
         ov('afi_safi', list(c['afi_safi']), group='bgp')
         ov('rib', c['rib'], group='bgp')
+        ov('md5', c['md5'], group='bgp')
+        self.sim.setsockopt_fails = bool(c['setsockopt_fails'])
         for k in ('four_bytes_as', 'route_refresh', 'cisco_route_refresh', 'enhanced_route_refresh',
                   'graceful_restart', 'cisco_multi_session', 'add_path'):
             ov(k, c[k], group='bgp')
